@@ -225,6 +225,48 @@ theorem fresh_number (st st' : St) (stamp n : Nat) (inv : Inv st)
         subst h2; subst h1
         exact ⟨(nextNum_spec inv).1, (nextNum_spec inv).2, by simpa using hnew, rfl, rfl⟩
 
+/-- **runN_survives_other_ops.** Cleaning (or reinstalling) never disturbs a runN link whose target is
+still there: in every state, after `clean <run>`, `clean runN`, a reinstall — anything but an install,
+`clean <workflow>` or the user touching the link — if runN pointed to `run k` and `run k` still exists
+afterwards, runN still points to `run k`. -/
+theorem runN_survives_other_ops (st : St) (stamp k : Nat) (op : Op)
+    (hop : isInstall op = false ∧ isRelink op = false ∧ op ≠ .rmRunN)
+    (hk : st.runN = some k) (hstill : RunId.num k ∈ ids (step st stamp op).1) :
+    (step st stamp op).1.runN = some k := by
+  have hclean : ∀ r, RunId.num k ∈ ids (cleanRun st r) → (cleanRun st r).runN = some k := by
+    intro r h
+    unfold cleanRun at h ⊢
+    by_cases hc : (ids st).contains r = true
+    · simp only [hc, if_true] at h ⊢
+      rw [hk]
+      by_cases hr : (r == RunId.num k) = true
+      · exfalso
+        have hr' : r = RunId.num k := by simpa using hr
+        subst hr'
+        have hf := ids_filter st (fun x => x != RunId.num k)
+        simp only [ids] at h hf
+        rw [hf] at h
+        simp at h
+      · simp [hr]
+    · simp only [hc, Bool.false_eq_true, if_false]; exact hk
+  cases op with
+  | install => simp [isInstall] at hop
+  | installNamed s => simp [isInstall] at hop
+  | installFlat => simp [isInstall] at hop
+  | relink j => simp [isRelink] at hop
+  | rmRunN => simp at hop
+  | clean r => exact hclean r hstill
+  | cleanAll =>
+    simp only [step] at hstill ⊢
+    split
+    · rename_i hb; simp [hb, ids, init] at hstill
+    · exact hk
+  | cleanRunN =>
+    simp only [step, hk] at hstill ⊢
+    exact hclean _ hstill
+  | reinstall r => simp only [step]; split <;> exact hk
+  | reinstallFlat => simp only [step]; split <;> exact hk
+
 /-- the state after `j` plain installs -/
 def afterInstalls (j : Nat) : St :=
   ⟨(List.range j).map fun i => (.num (i + 1), i + 1), if j = 0 then none else some j, none⟩
@@ -370,6 +412,10 @@ re-pointed at run1 while run2 exists) changes no directory -/
 example : (step ⟨[(.num 1, 1), (.num 2, 2)], some 1, none⟩ 5 .install)
     = (⟨[(.num 1, 1), (.num 2, 2)], none, none⟩, .err) := by decide
 example : isInstall (.installNamed "a") = true := rfl
+
+/-- `runN_survives_other_ops` applies: run1 of run1..run3 is cleaned, runN keeps pointing to run3 -/
+example : (step ⟨[(.num 1, 1), (.num 2, 2), (.num 3, 3)], some 3, none⟩ 4 (.clean (.num 1))).1
+    = ⟨[(.num 2, 2), (.num 3, 3)], some 3, none⟩ := by decide
 
 /-- `numbers_increase_without_clean` on a mixed history -/
 example : issuedFrom init 0 [.install, .installNamed "a", .rmRunN, .install, .reinstall (.num 1), .install] = [1, 2, 3] := by decide
